@@ -6,15 +6,16 @@ import json
 import os
 import shutil
 
-for d in sorted(glob.glob("/tmp/seed-C*/out/[0-9]") + glob.glob("/tmp/seed3-C*/out/[0-9]") + glob.glob("/tmp/seed4-C*/out/[0-9]") + glob.glob("/tmp/seed5-C*/out/[0-9]") + glob.glob("/tmp/seed6-C*/out/[0-9]") + glob.glob("/tmp/seed7-C*/out/[0-9]") + glob.glob("/tmp/seed8-C*/out/[0-9]")):
+for d in sorted(glob.glob("/tmp/seed-C*/out/[0-9]") + glob.glob("/tmp/seed3-C*/out/[0-9]") + glob.glob("/tmp/seed4-C*/out/[0-9]") + glob.glob("/tmp/seed5-C*/out/[0-9]") + glob.glob("/tmp/seed6-C*/out/[0-9]") + glob.glob("/tmp/seed7-C*/out/[0-9]") + glob.glob("/tmp/seed8-C*/out/[0-9]") + glob.glob("/tmp/seed9-C*/out/[0-9]")):
     w3 = d.startswith("/tmp/seed3-")
     w4 = d.startswith("/tmp/seed4-")
     w5 = d.startswith("/tmp/seed5-")
     w6 = d.startswith("/tmp/seed6-")
     w7 = d.startswith("/tmp/seed7-")
     w8 = d.startswith("/tmp/seed8-")
+    w9 = d.startswith("/tmp/seed9-")
     p = d.split("/")[2].split("-")[1]
-    n = ("w3-" if w3 else "w4-" if w4 else "w5-" if w5 else "w6-" if w6 else "w7-" if w7 else "w8-" if w8 else "") + os.path.basename(d)
+    n = ("w3-" if w3 else "w4-" if w4 else "w5-" if w5 else "w6-" if w6 else "w7-" if w7 else "w8-" if w8 else "w9-" if w9 else "") + os.path.basename(d)
     res = "/tmp/seedres/%s-%s.json" % (p, n)
     if not os.path.exists(res):
         continue
